@@ -3,6 +3,7 @@ like the explicitly expanded index, and filtered views expose exactly the keys s
 Bound: one or two directory objects with <= 5 files, relpath depth <= 3, plus <= 2 loose files; access sequences of <= 4
 operations from {getitem, contains, iteritems(prefix), ls, view.iteritems(prefix), view.ls, detailed ls / view.ls}; in-memory index; n cases (seeded)."""
 import logging; logging.disable(logging.CRITICAL)
+import _memfs  # noqa: E402
 import hashlib, json, os, random, sys, tempfile
 SRC = os.environ.get("PYVC_REPO_SRC", "/repo/src")
 sys.path.insert(0, SRC)
@@ -20,6 +21,7 @@ def main(n, seed):
     fs = LocalFileSystem()
     fails, distinct = [], set()
     for case in range(n):
+        _memfs.reset()
         with tempfile.TemporaryDirectory(dir="/var/tmp") as tmp:
             odb = HashFileDB(fs, os.path.join(tmp, "odb"))
             tops = rnd.sample(["d", "e"], rnd.randint(1, 2))
